@@ -9,7 +9,8 @@
 //!      then: every truncation and every single-byte mutation (to 00, 01, 7F, FF) of every fragment; 17 hostile basic offset
 //!      tables (empty, decreasing, equal, huge, off by one, too long) x 4 fragment layouts x 3 frame counts; the image
 //!      attributes replaced one at a time by hostile values; the JPEG fragments also under the decoder-only JPEG
-//!      transfer syntaxes; through PixelDecoder::decode_pixel_data and decode_pixel_data_frame;
+//!      transfer syntaxes; a fragment sequence under the transfer syntaxes without a pixel data decoder (frames 0 / 1 / 2 / 5
+//!      requested); through PixelDecoder::decode_pixel_data and decode_pixel_data_frame;
 //! (11) the deflated data set transfer syntax: every truncation and every single-byte mutation (to 00, 01, FF) of a
 //!      complete Deflated Explicit VR Little Endian file, through dicom_object::from_reader, and a sample of them
 //!      through open_file (by path, files in a private temporary directory removed afterwards);
@@ -232,6 +233,19 @@ fn main() {
         }
     }
     if images == 0 { t.fail("no image could be transcoded into an encapsulated transfer syntax in this build".to_string()); }
+    // a fragment sequence under a transfer syntax that has NO pixel data decoder (native and deflated data set syntaxes): 1-3 fragments,
+    // Number of Frames 1 / 2 / absent, frames 0 / 1 / 2 / 5 requested
+    for ts in ["1.2.840.10008.1.2", "1.2.840.10008.1.2.1", "1.2.840.10008.1.2.2", "1.2.840.10008.1.2.1.99"] {
+        for nf in [Some("1"), Some("2"), None] { for nfrag in 1..=3usize {
+            let mut o = image(8, 1, 2, 2, 1);
+            match nf { Some(n) => { o.put(DataElement::new(Tag(0x0028, 0x0008), VR::IS, PrimitiveValue::from(n))); } None => { o.remove_element(Tag(0x0028, 0x0008)); } }
+            o.put(DataElement::new(Tag(0x7FE0, 0x0010), VR::OB, Value::from(PixelFragmentSequence::new(vec![], vec![vec![1u8, 2, 3, 4]; nfrag]))));
+            let file = match o.with_meta(FileMetaTableBuilder::new().transfer_syntax(ts)) { Ok(f) => f, Err(_) => continue };
+            let label = format!("transfer syntax {} (no pixel data decoder) with a sequence of {} fragments, number of frames {:?}", ts, nfrag, nf);
+            t.case(&|| format!("decode_pixel_data, {}", label), &mut || { let _ = file.decode_pixel_data(); });
+            for frame in [0u32, 1, 2, 5] { t.case(&|| format!("decode_pixel_data_frame({}), {}", frame, label), &mut || { let _ = file.decode_pixel_data_frame(frame); }); }
+        } }
+    }
 
     // (11) deflated data set transfer syntax
     let obj = image(8, 1, 2, 3, 1);
